@@ -407,6 +407,7 @@ p_tree_avl_remove (PTreeBaseNode	**root_node,
 	PTreeBaseNode	*child_node;
 	PTreeAVLNode	*child_parent;
 	pint		cmp_result;
+	ppointer	swap_pointer;
 
 	cur_node = *root_node;
 
@@ -430,8 +431,13 @@ p_tree_avl_remove (PTreeBaseNode	**root_node,
 		while (prev_node->right != NULL)
 			prev_node = prev_node->right;
 
-		cur_node->key   = prev_node->key;
-		cur_node->value = prev_node->value;
+		swap_pointer     = cur_node->key;
+		cur_node->key    = prev_node->key;
+		prev_node->key   = swap_pointer;
+
+		swap_pointer     = cur_node->value;
+		cur_node->value  = prev_node->value;
+		prev_node->value = swap_pointer;
 
 		/* Mark node for removal */
 		cur_node = prev_node;
